@@ -22,6 +22,7 @@ LEVEL_TEXT = ("For each timing configuration a fault-free run records every data
 LEVEL_NOTE = ("trusts the simulated network (source address, unicast/multicast flag, datagram boundaries, loss/duplication/delay windows; "
               "no kernel effects), the virtual loop and the convergence bound B (never shorter than the property's); a crash is a "
               "black-holed transport followed by dropping the stack, a restart a fresh protocol object on the same address")
+TIEBREAK_VARIANTS = True  # thorough tier: some shards run equal-deadline timers LIFO / in seeded random order
 RULE = (
     "configurations: 8 finite-TTL timing sets (TTL > cyclic period, subscribe TTL > refresh, repetitions 0-3, collection timeout 0 or "
     "not, network latency 0 or not) and 1 infinite-TTL set (lossless, crashes followed by restarts); disturbance kinds: graceful "
